@@ -141,3 +141,12 @@ Theorem dense_results_fresh :
    && todense_allocates_first && todense_returns_only_allocation)%bool = true.
 Proof. exact dense_results_fresh_proof. Qed.
 Print Assumptions dense_results_fresh.
+
+(* Reductions return newly computed arrays: in every `return` of every _reduce_calc of a sparse class
+   the reduced array goes through a ufunc reduce/reduceat (or a recursive .reduce), never the receiver
+   itself or a pass-through (astype(copy=False), asformat, reshape ...) of it — the library writes into
+   reduction results with out= (SparseArray.var, mean), which is safe only then. *)
+Theorem reductions_return_fresh :
+  (nonempty reduce_calc_returns_fresh && forallb (fun p => snd p) reduce_calc_returns_fresh)%bool = true.
+Proof. exact reductions_return_fresh_proof. Qed.
+Print Assumptions reductions_return_fresh.
